@@ -465,8 +465,12 @@ func genC17(r *Rng, idx int, tier string) *Scenario {
 				from := Pick(r, "I", "R")
 				sc.Steps = append(sc.Steps, Step{Op: "ref_send_malformed", SA: 0, Dgram: id, From: from, Src: Pick(r, "badpad", "badpad", "ivonly", "misaligned", "shortbody", "badinner", "innerlen"), SpiI: r.U64()})
 				st = Step{Op: "deliver", Dgram: id, Rx: genRx(r), Obj: Pick(r, "long", "long", "peer")}
-			case 0, 1:
+			case 0:
 				st.Fault = &Fault{Kind: "bitflip", Byte: r.Intn(140), Bit: r.Intn(8)}
+			case 1:
+				// the genuine datagram was accepted a moment ago; a copy corrupted in a way weak checksums miss follows
+				sc.Steps = append(sc.Steps, Step{Op: "deliver", Dgram: sent[k], Rx: genRx(r), Obj: st.Obj})
+				st.Fault = genChecksumPreserving(r, 76)
 			case 2:
 				st.Fault = &Fault{Kind: "truncate", Len: Pick(r, 0, 27, 28, 31, 32, 48, r.Intn(140))}
 			case 3:
